@@ -11,3 +11,5 @@ cd "$(dirname "$0")/.."
 set +e
 VERIF_REPO="$WT" VERIF_SEED=$SEED VERIF_EVIDENCE_DIR="$WT/.evidence" timeout -k 5 ${MUT_TIMEOUT:-1800} /venv/bin/python -B run_check.py "$PROP" "$TIER" > "$WT/.out" 2>&1 < /dev/null
 grep -v "^  " "$WT/.out" | cut -c1-300 | tail -${LINES_OUT:-8}
+# the replay files of this run are kept for inspection (scratch only, nothing registered depends on it)
+rm -rf /tmp/last_replays; mkdir -p /tmp/last_replays; cp "$WT"/.evidence/replays/* /tmp/last_replays/ 2>/dev/null || true
